@@ -39,13 +39,14 @@ class Path:
     env: Dict[str, ast.AST] = field(default_factory=dict)
     stores: Dict[str, ast.AST] = field(default_factory=dict)
     named_stores: Dict[str, ast.AST] = field(default_factory=dict)  # same stores, the target's root name kept (object identity)
+    origin: Dict[str, ast.AST] = field(default_factory=dict)  # name / store key -> the statement that bound it last
     calls: List[ast.AST] = field(default_factory=list)
     ret: object = None
     raised: Optional[str] = None
     end: Optional[ast.AST] = None
 
     def fork(self) -> "Path":
-        return Path(self.conds, dict(self.env), dict(self.stores), dict(self.named_stores), list(self.calls), self.ret, self.raised, self.end)
+        return Path(self.conds, dict(self.env), dict(self.stores), dict(self.named_stores), dict(self.origin), list(self.calls), self.ret, self.raised, self.end)
 
     def has(self, text_pol) -> bool:
         return text_pol in self.conds
@@ -175,6 +176,11 @@ def fold(t: ast.AST) -> Optional[bool]:
             return True
         return False if all(v is False for v in vals) else None
     if isinstance(t, ast.Compare) and len(t.ops) == 1:
+        l_, r_ = t.left, t.comparators[0]
+        if isinstance(t.ops[0], (ast.Is, ast.IsNot)):
+            for x_, y_ in ((l_, r_), (r_, l_)):
+                if isinstance(x_, ast.Name) and x_.id.endswith("__set") and isinstance(y_, ast.Constant) and y_.value is None:
+                    return isinstance(t.ops[0], ast.IsNot)  # a parameter bound to "some given value"
         try:
             a, b = _const(t.left), _const(t.comparators[0])
         except ValueError:
@@ -268,6 +274,7 @@ class PathEval:
         return states
 
     def stmt(self, s, p: Path) -> List[Path]:
+        self._cur = s
         if isinstance(s, ast.Return):
             p.ret = self.sub(s.value, p) if s.value is not None else ast.Constant(None)
             p.end = s
@@ -427,6 +434,7 @@ class PathEval:
                 p.env.pop(t.id, None)
                 return
             p.env[t.id] = v
+            p.origin[t.id] = getattr(self, "_cur", None)
         elif isinstance(t, (ast.Tuple, ast.List)):
             if isinstance(v, (ast.Tuple, ast.List)) and len(v.elts) == len(t.elts):
                 for e, x in zip(t.elts, v.elts):
@@ -437,7 +445,9 @@ class PathEval:
         else:
             tt = text(self.sub(_as_load(t), p))
             p.stores[tt] = v
-            p.named_stores[self.raw_key(t, p)] = v
+            rk = self.raw_key(t, p)
+            p.named_stores[rk] = v
+            p.origin[rk] = getattr(self, "_cur", None)
 
     def raw_key(self, t, p: Path) -> str:
         """target text with indices substituted but the root variable kept"""
